@@ -53,6 +53,7 @@ func pxService() (protoreflect.ServiceDescriptor, error) {
 		// google.api.HttpBody transfers (body.go)
 		{Name: "Upload", In: "vf.Upload", Out: "vf.Rsp", CS: true, Rule: &annotations.HttpRule{Pattern: &annotations.HttpRule_Post{Post: "/px/upload/{name}"}, Body: "file"}},
 		{Name: "Download", In: "vf.Req", Out: "google.api.HttpBody", SS: true, Rule: hget("/px/download/{a}")},
+		{Name: "UploadU", In: "vf.Upload", Out: "vf.Rsp", Rule: &annotations.HttpRule{Pattern: &annotations.HttpRule_Post{Post: "/px/uploadu/{name}"}, Body: "file"}},
 	}}}}
 	fd, err := f.Build()
 	if err != nil {
